@@ -8,7 +8,7 @@ Import ListNotations.
 Local Open Scope N_scope.
 
 Definition var_of_decl (d : decl) : var :=
-  mkVar (d_name d) (d_loc d)
+  mkVar10 (d_name d) (d_loc d)
         (match d_kind d with DParam | DLoop => true | _ => false end)
         (d_close d)
         (match d_kind d with
@@ -16,7 +16,7 @@ Definition var_of_decl (d : decl) : var :=
          | DLocal => match d_value d with Some e => is_func_exp e | None => false end
          | _ => false
          end)
-        (d_value d) (d_empty d) [].
+        (d_value d) (d_empty d) [] (d_init d) (d_tab d).
 
 Definition AddsOK (acts : list action) (ds : list decl) : Prop := Permutation (adds_of acts) (map var_of_decl ds).
 
@@ -41,8 +41,8 @@ Proof.
   apply perm_skip. apply IH.
 Qed.
 
-Lemma local_rest_decls lc : (forall e, lc = Some e -> is_func_exp e = false) -> forall ns ls ats,
-  adds_of (local_rest ns ls ats lc) = map var_of_decl (local_decls ns ls ats [] lc).
+Lemma local_rest_decls il lc : (forall e, lc = Some e -> is_func_exp e = false) -> forall ns ls ats,
+  adds_of (local_rest il ns ls ats lc) = map var_of_decl (local_decls il ns ls ats [] lc).
 Proof.
   intros Hlc. induction ns as [|n ns' IH]; intros ls ats; [reflexivity|].
   destruct ls as [|l ls']; [reflexivity|]. destruct ats as [|a ats']; [reflexivity|].
@@ -107,9 +107,9 @@ Proof.
 Qed.
 
 (* the variables local_add_acts creates are the declarations of the statement *)
-Lemma local_add_acts_decls : forall es ns ls ats,
+Lemma local_add_acts_decls il : forall es ns ls ats,
   length ns = length ls -> length ns = length ats -> (length es <= length ns)%nat ->
-  adds_of (local_add_acts ns ls ats es) = map var_of_decl (local_decls ns ls ats es None).
+  adds_of (local_add_acts il ns ls ats es) = map var_of_decl (local_decls il ns ls ats es None).
 Proof.
   induction es as [|e es' IH]; intros ns ls ats Hl Ha Hle.
   - cbn [local_add_acts]. apply local_rest_decls. intros; discriminate.
@@ -119,10 +119,10 @@ Proof.
     assert (Ha' : length ns' = length ats') by (cbn [length] in Ha; lia).
     assert (Hle' : (length es' <= length ns')%nat) by (cbn [length] in Hle; lia).
     cbn [local_add_acts local_decls map].
-    set (v := mkVar n l false (match a with AttrClose => true | _ => false end) (is_func_exp e) (Some e)
-                    (local_refer_empty n e) []).
-    assert (Hv : var_of_decl (mkDecl n l DLocal (match a with AttrClose => true | _ => false end) (Some e)
-                                     (local_refer_empty n e)) = v) by reflexivity.
+    set (v := mkVar10 n l false (match a with AttrClose => true | _ => false end) (is_func_exp e) (Some e)
+                      (local_refer_empty n e) [] il (Scope.tab_of_exp e)).
+    assert (Hv : var_of_decl (mkDecl8 n l DLocal (match a with AttrClose => true | _ => false end) (Some e)
+                                      (local_refer_empty n e) il (Scope.tab_of_exp e)) = v) by reflexivity.
     rewrite Hv. destruct es' as [|e2 es2].
     + change (adds_of (AAdd v :: ?r)) with (v :: adds_of r). f_equal.
       apply local_rest_decls. apply lastcall_not_func.
@@ -132,13 +132,13 @@ Qed.
 Lemma local_go_adds flv slv l : forall es ns ls ats g,
   length ns = length ls -> length ns = length ats -> (length es <= length ns)%nat ->
   Forall ExpAdds es -> forallb frag_exp es = true ->
-  AddsOK (fst (tr_stat (SLocal ns ls ats es l) flv slv g)) (flat_map d_exp es ++ local_decls ns ls ats es None).
+  AddsOK (fst (tr_stat (SLocal ns ls ats es l) flv slv g)) (flat_map d_exp es ++ local_decls (Scope.init_loc ns ls es l) ns ls ats es None).
 Proof.
   intros es ns ls ats g Hl Ha Hle Hok Hf.
   rewrite tr_stat_local, local_vis_thread, (local_visited_all es ns ls ats Hl Ha Hle).
   pose proof (thread_exps_adds flv es g Hok Hf) as H1.
   destruct (thread (fun x g0 => tr_exp x None flv g0) es g) as [a1 g1]. cbn [fst] in *.
-  apply AddsOK_app; [exact H1|]. unfold AddsOK. rewrite (local_add_acts_decls es ns ls ats Hl Ha Hle).
+  apply AddsOK_app; [exact H1|]. unfold AddsOK. rewrite (local_add_acts_decls _ es ns ls ats Hl Ha Hle).
   apply Permutation_refl.
 Qed.
 
